@@ -858,6 +858,38 @@ func RuleH3(c *Ctx) {
 					}
 					return true
 				})
+				if !rejects {
+					// the same in any other shape: an error return that is reached only with the slot occupied
+					occupied := func(fa cfgx.Fact) bool {
+						be, ok := ast.Unparen(fa.Expr).(*ast.BinaryExpr)
+						if !ok || (be.Op != token.EQL && be.Op != token.NEQ) {
+							return false
+						}
+						tv, ok := info.Types[be.Y]
+						if !ok {
+							return false
+						}
+						isZero := tv.IsNil() || (tv.Value != nil && (tv.Value.ExactString() == `""` || tv.Value.ExactString() == "0"))
+						if !isZero || (be.Op == token.NEQ) != fa.Truth {
+							return false
+						}
+						return c.slotOf(pk, fd, bodyInfo{body: fd.Body}, be.X) == slot
+					}
+					inspectNoLit(fd.Body, func(y ast.Node) bool {
+						ret, ok := y.(*ast.ReturnStmt)
+						if !ok || len(ret.Results) == 0 {
+							return true
+						}
+						last := ret.Results[len(ret.Results)-1]
+						if tv, has := info.Types[last]; !has || tv.IsNil() {
+							return true
+						}
+						if cfOuter.MustAt(ret, occupied, nil, nil) {
+							rejects = true
+						}
+						return true
+					})
+				}
 				switch {
 				case rejects:
 					sc.Holds(key, pos, "dominated by a test that the slot is empty; an occupied slot is an error")
